@@ -151,6 +151,7 @@ def run_verus_once(path, extra, timeout):
         return dict(rc=-9, timeout=True, wall=time.time() - t0, cmd=' '.join(cmd), diags=[], funcs={}, results={})
     diags = []
     hard = []
+    hard_lines = []
     for l in err.split('\n'):
         l = l.strip()
         if not l.startswith('{'): continue
@@ -160,6 +161,7 @@ def run_verus_once(path, extra, timeout):
             # a rustc / Verus front-end error: the assembled text does not compile on this tree (unsupported construct or misplaced ghost code): never a property violation
             sp0 = d['spans'][0]
             hard.append('the assembled text is rejected before verification: %s (assembled line %d: %s)' % (d['message'], sp0['line_start'], (sp0['text'][0]['text'].strip()[:120] if sp0.get('text') else '')))
+            hard_lines.append(sp0['line_start'])
         elif d.get('level') == 'error' and d.get('spans'):
             diags.append(dict(message=d['message'], spans=[dict(line_start=s['line_start'], line_end=s['line_end'], col=s['column_start'],
                                                               is_primary=s['is_primary'], label=s.get('label'),
@@ -178,19 +180,19 @@ def run_verus_once(path, extra, timeout):
                 funcs[nm] = dict(success=f['success'], ms=f['time'], rlimit=f['rlimit'], mode=f.get('mode:'))
     except Exception as e:
         hard.append('no JSON result from verus: %s; stderr tail: %s' % (e, err[-600:]))
-    return dict(rc=rc, wall=time.time() - t0, cmd=' '.join(cmd), diags=diags, funcs=funcs, results=results, hard=hard, times=times)
+    return dict(rc=rc, wall=time.time() - t0, cmd=' '.join(cmd), diags=diags, funcs=funcs, results=results, hard=hard, hard_lines=hard_lines, times=times)
 
 
-def run_unit(name, tier='quick', use_cache=True, extra_args=(), log=print):
+def run_unit(name, tier='quick', use_cache=True, extra_args=(), log=print, degrade_items=()):
     cfg = UNITS[name]
     os.makedirs(CACHE, exist_ok=True)
-    asm = A.assemble(cfg['modules'], cfg.get('spec', ()), main_file=cfg.get('main_file'))
+    asm = A.assemble(cfg['modules'], cfg.get('spec', ()), main_file=cfg.get('main_file'), degrade_items=degrade_items)
     path = os.path.join(BUILD, 'tm_%s.rs' % name)
     rlimit = '30' if tier == 'quick' else '60'
     args = ['--rlimit', rlimit] + list(extra_args)
     for vm in cfg.get('verify_only', []): args += ['--verify-module', vm]
     if cfg.get('compile'): args += ['--compile', '-o', os.path.join(BUILD, 'bin_%s' % name), '-C', 'opt-level=2']
-    key = hashlib.sha256((asm.text + '\0' + ' '.join(args) + '\0v3').encode()).hexdigest()[:24]
+    key = hashlib.sha256((asm.text + '\0' + ' '.join(args) + '\0v4').encode()).hexdigest()[:24]
     cpath = os.path.join(CACHE, '%s-%s.json' % (name, key))
     obls, marks = obligations_of(asm.text, asm.items, cfg)
     if cfg.get('verify_only'):
@@ -261,7 +263,19 @@ def run_unit(name, tier='quick', use_cache=True, extra_args=(), log=print):
                              tags=tags, attr=attr, rlimit=rl, line=primary['line_start'], text=primary['text'][:300],
                              clause=(clause['text'][:300] if clause else None), rendered=d.get('rendered', '')[:3000],
                              item_changed=bool(it and it.get('changed_tokens'))))
+    # degraded retry: front-end errors located only in items whose code differs from the pinned text -> assume those items' contracts
+    if res.get('hard') and res.get('hard_lines') and not degrade_items:
+        bad = set()
+        for ln in res['hard_lines']:
+            it = next((x for x in asm.items if x['line_start'] <= ln <= x['line_end']), None)
+            if it is not None and it.get('changed_tokens') and it.get('annotated') and it['key'].startswith(('fn ', 'impl ')):
+                bad.add((it['module'], it['key']))
+        if bad:
+            ur2 = run_unit(name, tier, use_cache, extra_args, log, degrade_items=tuple(sorted(bad)))
+            ur2.degraded = sorted(bad)
+            return ur2
     ur = UnitResult()
+    ur.degraded = list(degrade_items)
     ur.name = name; ur.asm = asm; ur.path = path; ur.res = res; ur.obligations = obls; ur.failures = failures
     ur.hard = res.get('hard', []); ur.marks = marks; ur.binpath = binpath if cfg.get('compile') else None; ur.key = key
     return ur
